@@ -451,7 +451,7 @@ var scenConstantsHCL = []string{
 	"variable_source \"u\" {}", "request {}", "request \"r\" {\n  uri = <<EOT\nx", "a = \"${\"", "a = \"%{\"", strings.Repeat("a {\n", 2000), strings.Repeat("[", 3000), "\xff\xfe",
 }
 
-var hugeScenNumber = regexp.MustCompile(`[0-9]{7,}`)
+var hugeScenNumber = regexp.MustCompile(`[0-9]{6,}`)
 
 // ---------------------------------------------------------------------------
 // generator
@@ -565,7 +565,7 @@ func checkScen(c ScenCase, o *vf.Obs) error {
 	return err
 }
 
-var hugeCountRe = regexp.MustCompile(`\(\s*[0-9]{7,}`)
+var hugeCountRe = regexp.MustCompile(`\(\s*[0-9]{6,}`)
 
 func scenBody(c ScenCase, o *vf.Obs) error {
 	class := func(names ...string) {
